@@ -21,6 +21,8 @@ CLAIMED = {
          "N <= 4 bytes quick (5-6 thorough), two chunks, line stash reduced to 16 bytes (hook; 3 bytes for the over-long-line safety obligations); the component state machine _ical_proc is observed through hook ECHSE_VERIF_PROC, it is a function of (state, line); known finding C10-1 (escape split) excluded and re-confirmed each run.", "chunked-vs-whole differential on symbolic bytes", "6 C10"),
  'C09': ("The fillers called as refill() calls them with bounds/pointer checks on the real cache buffer (cache 4 via hook): overshoot shapes, the maximal BYHOUR/BYSECOND lists, and empty recurrence sets that must end the stream within the unwinding bound (a failed unwinding assertion is replayed natively under a time limit).",
          "cache 4 instead of 64; termination obligations start near the end of the supported range; sparse-shape memory safety rides on C01's obligations.", "bounds checks + unwinding assertions as termination obligations", "6 C09"),
+ 'C11': ("_inject_task1/_eject_task1/get_task with the real task table (put_task_slot/get_task_slot) and ownership predicates under symbolic histories of add-or-replace / cancel operations by two peer uids over symbolic 64-bit oids, as root daemon or per-user daemon; after every operation the look-up of every oid, the stored task, its owner and its run-as uid are compared with a reference map kept by the harness; table growth on colliding low bits is its own obligation.",
+         "2 operations x 2 oids and 3 operations x 2 oids quick (3 x 3 and table growth to 256 slots thorough); oids with fixed distinct low 4 bits and symbolic upper 60 bits in the history obligations; command layer entered with the peer uid directly; replies on the client fd, GET /queue and /sched rendering are outside.", "symbolic command histories against a reference map", "6 C11"),
  'C12': ("task_cb/chld_cb/run_task with symbolic limits under symbolic schedules of timer expiries and child exits; the harness keeps the ground truth of really running executions.",
          "1-2 tasks, 3-4 events quick (6 thorough), limits <= 3 or unset; libev/spawn stand-ins; child-watcher pool replaced by a separate-objects allocator.", "symbolic event schedules against a ground-truth counter", "6 C12"),
  'C13': ("prep_task() over all 32 output configurations with descriptors tagged by the object they refer to; the sinks reached by fd 1 / fd 2 through the plan are compared with the README table; working directory and stdin likewise.",
@@ -28,7 +30,7 @@ CLAIMED = {
  'C14': ("The limit L (1 s .. 30 d) is a solver variable at every hop: vtodoify() DURATION line, idiff_strp of PT<n>S, make_task() classification, echsx() argument of alarm() for TIMEOUT and DUE requests.",
          "signal delivery and the kill itself are outside; stand-ins for alarm/time/setuid/sigaction; DTEND->duration is C08's diff.", "per-hop conversion obligations", "6 C14"),
  'C16': ("refill()/next_evrrul() with the cache reduced to 2-4 (hook) so that pops cross refill boundaries: strictly increasing, >= DTSTART, <= UNTIL, <= COUNT, peek purity, and restart consistency against one long direct fill.",
-         "3 pops over a cache of 2 in the quick tier (5 pops over 4 thorough); UTC Gregorian streams; SHIFT/monthly/yearly shapes thorough-tier only.", "stream-vs-direct-fill equivalence", "6 C16"),
+         "2 pops = 2 refills over a cache of 2 in the quick tier (3 pops / cache 4 with 5 pops thorough); UTC Gregorian streams; echs_instant_sort cut for an insertion sort (its correctness is C20); SHIFT/monthly/weekly shapes thorough-tier only; streams followed for thousands of occurrences are outside any solver's reach.", "stream-vs-direct-fill equivalence", "6 C16"),
  'C07': ("The zone itself is symbolic (transitions, type map, offsets): cached and uncached offset lookup equal a linear-scan oracle and terminate; local<->UTC round trips hold for unambiguous local times.",
          "<= 3-5 transitions per zone, offsets within +-18 h, consecutive transitions >= 48 h apart for the round trip (checked against the installed zoneinfo by setup); zoneinfo file parsing and the refill() correction loop are outside.", "symbolic time zone", "6 C07"),
  'C08': ("echs_instant_diff/add/fixup, ordering predicates and both library epoch conversions compared with an independent calendar oracle for every instant of 1901-2099; the add/diff round trip is decomposed into lemmas each decided by a solver.",
@@ -45,7 +47,7 @@ CLAIMED = {
          "n <= 5 quick / <= 8 thorough, plus n = 33 attempted; lengths up to 4096 and the block-merge path are outside any solver's reach and outside the claim.", "symbolic arrays of fixed length", "6 C20"),
 }
 
-NA_REASON = "not yet claimed: harness under construction in this round (see DESIGN.md section 6)"
+NA_REASON = "not claimed (see DESIGN.md section 7)"
 
 
 def main():
@@ -87,7 +89,9 @@ def main():
     print('MANIFEST: %d checks, %d not_applicable' % (len(checks), len(na)))
 
 
-NA = {}
+NA = {
+ 'C06': "not decided within reach: the write side (chkpnt/chkpnt1 + the real buffered writer of src/fdprnt.h + the serialiser of src/evical.c, file system stand-in with one symbolic fault) is encoded in harness/C06, but symbolic execution does not finish in 1500 s (cbmc spends its time simplifying the nested buffer-index expressions of ~130 chained fdprintf/fdwrite calls, each with a conditional flush), with the output buffer reduced to 128 bytes, a count-only vsnprintf and a content-free memcpy; the reload side would in addition need the text parser run on the produced bytes. The harness, its measured numbers and the defect found while reading for it (C06-1, write errors unnoticed) are kept in DESIGN.md section 7; no verdict is claimed.",
+}
 
 if __name__ == '__main__':
     main()
